@@ -405,7 +405,7 @@ pub fn run(tier: Tier) -> i32 {
     let mut cov = Coverage::default();
     cov.evaluations = cases.len() as u64;
     cov.distinct_nontrivial = nontrivial;
-    cov.rule = "every constructor / builder path of every predefined command x boundary values: integers {0,1,2,MAX-1,MAX}, every pair of range bounds from {unbounded, included, excluded} x {0,1,5,MAX-1,MAX} (incl. empty and inverted), 9 durations around the millisecond rounding points, all enum variants, strings {x, 'a b', ' lead'}, volumes 0..=255; non-trivial = cases with at least one argument".to_string();
+    cov.rule = "every constructor / builder path of every predefined command x boundary values: integers {0,1,2,MAX-1,MAX}, every pair of range bounds from {unbounded, included, excluded} x {0,1,5,MAX-1,MAX} (incl. empty and inverted), 9 durations around the millisecond rounding points, all enum variants, every string parameter over 8 strings (plain, blanks, leading blank, double quotes, backslash, empty, tab, non-ASCII), volumes 0..=255; non-trivial = cases with at least one argument".to_string();
     cov.states = cases.len() as u64;
     cov.transitions = cases.iter().map(|c| c.args.len() as u64 + 1).sum();
     cov.traces = cases.len() as u64;
